@@ -5,6 +5,7 @@ import re
 import gens_split as G
 import splitcommon as SC
 from props import c01_blank
+from props import c01_selfref
 
 ENGINE = "split"
 RULE = ("streams: T = all token sequences over the 14-token splitter alphabet up to length 4 (quick) / 5 (thorough) plus random "
@@ -20,7 +21,18 @@ RULE = ("streams: T = all token sequences over the 14-token splitter alphabet up
         "class, an ASCII blank between two of them, a word edged with them) x wrapping (bare, braced, quoted, outside the "
         "delimiters) x class (ASCII blanks, other isspace, string.whitespace only, splitlines boundaries, invisible but not "
         "space), every character of every class in every slot; B additionally writes with the empty write stack and parses / "
-        "writes with the empty parse stack (oracle: nothing raises, str comes back). distinct = distinct text; "
+        "writes with the empty parse stack (oracle: nothing raises, str comes back). W / P-W / W-inc = THE LIBRARY'S OWN ARTEFACTS AS "
+        "INPUT (props/c01_selfref.py; the text is rendered in the implementation child from a recipe, with the warning sentence, "
+        "separator, indent and VAL_SEP of the tree under test): the writer's parsing-failed comment - exact for the line count of "
+        "the block that follows, and ~65 near misses (other counts, other digit systems incl. isdigit-but-not-int characters, 4400 "
+        "digits, case, blanks, doubled, the bare template) - under the default and custom parsing_failed_comment templates / "
+        "separators / layouts, placed directly above / a blank line above / below / far from blocks that fail in the splitter, "
+        "duplicate-key blocks, duplicate-field blocks and every kind of valid block, as free text, in explicit comments, in values, "
+        "as a key; the tree's own output with its warning sentences replaced by the variants; parse -> write -> parse -> write "
+        "2, 3 and 4 times under one or two alternating formats; separator / indent / VAL_SEP / template and the library's reserved "
+        "words in every slot of a document (oracle on every parse and every write of every cycle: nothing raises, a Library / a str "
+        "comes back, every failed block has an error and a raw text that occurs in the text parsed, no block is lost; model "
+        "comparison on the rendered text: splitter for W, composed pipeline for P-W; W-inc oracle only). distinct = distinct text; "
         "non-trivial = at least one failed block or >= 2 blocks")
 TRUSTED = ["oracle instance: str.lower restricted to ASCII for the @type text (others skipped for the model comparison, still run "
            "through parse_string/write_string for the no-raise oracle)",
@@ -83,6 +95,8 @@ def generate(rng, tier):
             cases.append({"stream": "K-inc", "input": {"text": t, "texts": cut_pieces(rng, blocks)}})
     # B / P-B: text made of or edged with blank-like characters in every slot of a document (props/c01_blank.py)
     cases.extend(c01_blank.generate(rng, tier))
+    # W / P-W / W-inc: the library's own artefacts as input (props/c01_selfref.py)
+    cases.extend(c01_selfref.generate(rng, tier))
     return cases
 
 
@@ -240,6 +254,19 @@ def impl(case):
     import enc, implutil, bibtexparser
     global _RX
     text = case["input"]["text"]
+    sr = case["input"].get("self")
+    stags, pieces = [], None
+    if sr is not None:
+        # the text of these cases is made here, from the recipe, with what the tree under test writes (props/c01_selfref.py)
+        text, stags, failure, pieces = c01_selfref.build(sr)
+        if failure is not None:
+            return {"sx_in": None, "sx_out": None, "oracle": {"ok": False, "detail": failure}, "nontrivial": True,
+                    "key": "self:" + repr(sorted(sr.items()))[:300], "tags": stags, "summary": failure[:160]}
+        if pieces is not None:
+            ok, detail, more = c01_selfref.judge(text, sr, pieces)
+            return {"sx_in": None, "sx_out": None, "oracle": {"ok": ok, "detail": detail}, "nontrivial": True,
+                    "key": "self-inc:" + (text if len(text) < 200 else str(hash(text))) + repr(sr.get("fmt")),
+                    "tags": ["incremental"] + stags + sorted(more), "summary": detail[:160] or "ok"}
     if case["input"].get("lex"):
         if _RX is None:
             # The lexer model (Model/Lexer.v classify) implements ONE pattern, the pinned tree's.  This stream checks that model
@@ -269,7 +296,7 @@ def impl(case):
     if case["input"].get("pipe"):
         w = implutil.guarded(lambda: bibtexparser.write_string(bibtexparser.parse_string(text)))
         rec = {"sx_in": [151, enc.enc_str(text)], "key": "pipe:" + (text if len(text) < 200 else str(hash(text))),
-               "tags": ["pipeline"] + btags}
+               "tags": ["pipeline"] + btags + stags}
         if w[0] == "exc":
             rec["sx_out"] = implutil.r_exc(6 if w[1] not in (5, 9, 99) else w[1])
             rec["oracle"] = {"ok": False, "detail": "write_string(parse_string(text)) raised " + w[2]}
@@ -283,7 +310,29 @@ def impl(case):
             rec["skip"] = True
         return rec
     rec, r = SC.base_record(text)
-    # the property itself: default parse stack, then default write
+    if sr is not None:
+        # the statement on every parse and every write of every cycle, under the format(s) of the recipe and the default one
+        if r[0] == "exc":
+            ok, detail = False, "parse_string(text, parse_stack=[]) raised " + r[2]
+        else:
+            ok, detail, more = c01_selfref.judge(text, sr, first_split=r)
+            stags = stags + sorted(more)
+        if not ok and "input of this cycle" not in detail:
+            detail += " on the text " + c01_selfref._show(text)
+    else:
+        ok, detail = plain_oracle(text, r, blank)
+    rec["oracle"] = {"ok": ok, "detail": detail}
+    kinds = SC.block_kinds(r[1]) if r[0] == "ok" else ["exc"]
+    rec["nontrivial"] = len(kinds) >= 2 or "ParsingFailedBlock" in kinds
+    rec["key"] = text if len(text) < 200 else str(hash(text))
+    rec["tags"] = (sorted(set(kinds)) or ["empty"]) + btags + stags
+    return rec
+
+
+def plain_oracle(text, r, blank):
+    """the property itself on one text: default parse stack, then default write.  `r` = the guarded parse with the empty stack"""
+    import implutil, bibtexparser
+
     def full():
         lib = bibtexparser.parse_string(text)
         out = bibtexparser.write_string(lib)
@@ -307,12 +356,7 @@ def impl(case):
             ok, detail = False, "default stack changed the number of blocks: %d -> %d" % (len(r[1].blocks), len(lib.blocks))
         if ok and blank:
             ok, detail = other_stacks(text, lib, r[1])
-    rec["oracle"] = {"ok": ok, "detail": detail}
-    kinds = SC.block_kinds(r[1]) if r[0] == "ok" else ["exc"]
-    rec["nontrivial"] = len(kinds) >= 2 or "ParsingFailedBlock" in kinds
-    rec["key"] = text if len(text) < 200 else str(hash(text))
-    rec["tags"] = (sorted(set(kinds)) or ["empty"]) + btags
-    return rec
+    return ok, detail
 
 
 def other_stacks(text, lib, lib0):
@@ -332,6 +376,6 @@ def other_stacks(text, lib, lib0):
 
 
 def shrink(case):
-    if case["input"].get("texts") is not None:
-        return iter(())
+    if case["input"].get("texts") is not None or case["input"].get("self") is not None:
+        return iter(())                                  # a recipe, not a text: the case is reported as generated
     return SC.shrink_text(case)
